@@ -13,7 +13,7 @@ ASSUMPTIONS = [
     "all 20^N sequences of a length are covered by one query (no composition split)",
 ]
 OUTSIDE = ["sequence lengths above the bound", "rounding of the N(N-1)/2 floating-point additions (tolerance)"]
-NMAX = {"quick": 16, "thorough": 40}
+NMAX = {"quick": 16, "thorough": 25}
 ITEM_TIMEOUT = {"quick": 300, "thorough": 1500}
 
 
